@@ -112,7 +112,7 @@ theorem findAndModify_go (cfg : Cfg) (now : Int) (c c' : Coll) (query proj : Val
   unfold findAndModify at h
   split at h
   · split at h
-    · cases h
+    · exact h
     · split at h
       · cases h
       · exact h
